@@ -64,6 +64,9 @@ func Spec() *run.Spec {
 			"weld.stride_exponents":                          10,
 			"weld.stride_pairs":                              2000,
 			"weld.distinct_cells_congruent_mod_2^15":         2000,
+			"null_faces.slivers_kept_checked":                3000,
+			"null_faces.slivers_dropped_checked":             300,
+			"null_faces.sliver_aspect_decades":               6,
 			"large.point_clouds":                             5,
 			"large.triangle_meshes":                          3,
 			"large.filter_and_crop_runs":                     60,
